@@ -314,8 +314,9 @@ func (q *Query) Parse() (pr *ParseResult, err error) {
 			time.January,
 			1, 0, 0, 0, 0,
 			utils.InstanceConfig.Timezone)
+		// the end of the last year that has a file (the year of the unbounded default end overflows)
 		pr.Range.End = time.Date(
-			pr.Range.End.Year(),
+			int(endYear),
 			time.December,
 			31, 23, 59, 59, 999999999,
 			utils.InstanceConfig.Timezone)
